@@ -2,7 +2,8 @@
 From Coq Require Import ZArith List Bool String Ascii.
 From Coq Require Extraction.
 From Coq Require Import ExtrOcamlBasic ExtrOcamlString.
-From HV Require Import Model.SexpDefs Gen.GenRefine Spec.SmtQuerySpec Model.SmtTextModel.
+From HV Require Import Model.SexpDefs Gen.GenRefine Spec.SmtQuerySpec Model.SmtTextModel
+  Model.PathCopyDefs Gen.GenPathCopy Model.PathHeapModel.
 Import ListNotations.
 Open Scope Z_scope.
 
@@ -108,8 +109,103 @@ Definition c11_path (a : list Z) : list Z :=
   | _ => [0]
   end.
 
+(* ---- programs over several Path objects (Model/PathHeapModel.v with the regenerated copy
+   modes).  ops: 1 i c b | 2 i c | 3 i k v1..vk | 4 i k s1..sk | 5 i *)
+Fixpoint read_hops (fuel : nat) (l : list Z) : list (hop Z) :=
+  match fuel with
+  | O => []
+  | S f =>
+      match l with
+      | 1 :: i :: c :: b :: r => HAppend (Z.to_nat i) c (negb (b =? 0)) :: read_hops f r
+      | 2 :: i :: c :: r => HBranch (Z.to_nat i) c :: read_hops f r
+      | 3 :: i :: k :: r => let (vs, r') := take_n (Z.to_nat k) r in HSlice (Z.to_nat i) vs :: read_hops f r'
+      | 4 :: i :: k :: r => let (s0, r') := take_n (Z.to_nat k) r in HExtend (Z.to_nat i) s0 :: read_hops f r'
+      | 5 :: i :: r => HActivate (Z.to_nat i) :: read_hops f r
+      | _ => []
+      end
+  end.
+
+Definition enc_hpath (cs : bool) (h : heap Z) (hp : hpath Z) : list Z :=
+  let p := h_view Z h hp in
+  let q := to_smt2 Z (fun c => c) p cs in
+  [lenZ (conditions p)]
+  ++ flat_map (fun cb => [fst cb; if snd cb : bool then 1 else 0]) (conditions p)
+  ++ [lenZ (pending p)]
+  ++ match sliced p with
+     | None => [0; 0]
+     | Some s => [1; lenZ s] ++ map natZ s
+     end
+  ++ [lenZ (solver p)] ++ solver p
+  ++ [lenZ (fst q)]
+  ++ map (fun x => match x with QPlain c => c | QTracked i c => i end) (fst q)
+  ++ [lenZ (snd q)] ++ snd q.
+
+(* [cache_solver; number of table rows; rows (k v1..vk)...; ops...] ->
+   [status; number of Path objects; per object: n; conditions (c, branching)...; number of
+    pending conditions; sliced flag; n; sliced...; n; assertions of its solver...;
+    n; asserted...; n; ids...] *)
+Definition c11_heap (a : list Z) : list Z :=
+  match a with
+  | cs :: nt :: r =>
+      let (table, r') := read_table (Z.to_nat nt) r in
+      let vars := fun c : Z => nth (Z.to_nat c) table [] in
+      let ops := read_hops (List.length r') r' in
+      match h_run Z Z.eqb (fun c => c) (fun c => c =? 0) vars gen_modes (h_init Z []) ops with
+      | None => [0]
+      | Some h => [1; lenZ (o_paths h)] ++ flat_map (enc_hpath (negb (cs =? 0)) h) (o_paths h)
+      end
+  | _ => [0]
+  end.
+
+(* the same program on values, every object along its own lineage (the right-hand side of
+   C11_every_path_query): [status; number of objects; per object: n; constraints...] *)
+Definition c11_lineage_spec (a : list Z) : list Z :=
+  match a with
+  | _ :: nt :: r =>
+      let (table, r') := read_table (Z.to_nat nt) r in
+      let ops := read_hops (List.length r') r' in
+      let ls := lineages Z ops in
+      [1; lenZ ls]
+      ++ flat_map (fun l => let cs := add_all Z Z.eqb (fun c => c) (fun c => c =? 0) [] (accumulated Z l) in
+                            lenZ cs :: cs) ls
+  | _ => [0]
+  end.
+
+(* does the program follow the exploration discipline?  [1; n; running path of every solver
+   object...] or [0] *)
+Definition c11_sched (a : list Z) : list Z :=
+  match a with
+  | _ :: nt :: r =>
+      let (_, r') := read_table (Z.to_nat nt) r in
+      match sched_run Z sched_init (read_hops (List.length r') r') with
+      | Some sc => ([1; lenZ (sc_current sc)] ++ map natZ (sc_current sc))%list
+      | None => [0]
+      end
+  | _ => [0]
+  end.
+
+(* the pure model run along the lineage of every object (the right-hand side of
+   C11_solver_mirrors_running_path): per object [status; n; solver view...] *)
+Definition c11_lineage_solver (a : list Z) : list Z :=
+  match a with
+  | _ :: nt :: r =>
+      let (table, r') := read_table (Z.to_nat nt) r in
+      let vars := fun c : Z => nth (Z.to_nat c) table [] in
+      let ls := lineages Z (read_hops (List.length r') r') in
+      lenZ ls ::
+      flat_map (fun l => match run Z Z.eqb (fun c => c) (fun c => c =? 0) vars (empty_path Z []) l with
+                         | Some p => ([1; lenZ (solver p)] ++ solver p)%list
+                         | None => [0; 0]
+                         end) ls
+  | _ => [0]
+  end.
+
 Definition table : list (string * (list Z -> list Z)) :=
-  [ ("c11_refine_line"%string, c11_refine_line);
+  [ ("c11_sched"%string, c11_sched);
+    ("c11_lineage_solver"%string, c11_lineage_solver);
+    ("c11_heap"%string, c11_heap);
+    ("c11_lineage_spec"%string, c11_lineage_spec);
+    ("c11_refine_line"%string, c11_refine_line);
     ("c11_eval"%string, c11_eval);
     ("c11_dump"%string, c11_dump);
     ("c11_path"%string, c11_path) ].
